@@ -17,10 +17,37 @@
    used), and the same outcome for every restore and round trip. *)
 From Coq Require Import ZArith List String Ascii Bool Uint63.
 From GSP Require Import Base.Prelude Base.Decode Value.Time Value.Model Value.Run
-  RDF.Model RDF.Run SMT.Model Merklizer.Model Merklizer.Script Merklizer.Run Merklizer.Binary.
+  RDF.Model RDF.Run SMT.Model Merklizer.Model Merklizer.Binary.
 Import ListNotations.
 Open Scope list_scope.
 Open Scope Z_scope.
+
+(* ---- tables and input conversion (same conventions as Merklizer/Run.v; repeated here so
+   that this file depends only on the models) ---- *)
+Definition tmiss : Z := -1.
+Fixpoint tlook2 (a b : Z) (t : list (Z * Z * Z)) : Z :=
+  match t with
+  | [] => tmiss
+  | (x, y, h) :: r =>
+      if Z.eqb x a then (if Z.eqb y b then h else tlook2 a b r) else tlook2 a b r
+  end.
+Definition raw_ttab := list (limbs * limbs * limbs).
+Definition mk_ttab (t : raw_ttab) : list (Z * Z * Z) :=
+  map (fun e => (z_of_limbs (fst (fst e)), z_of_limbs (snd (fst e)), z_of_limbs (snd e))) t.
+Definition mkrh (p : limbs) (h : list (list limbs * option limbs)) (b : list (string * option limbs))
+  : raw_hasher := {| rh_prime := p; rh_hash := h; rh_bytes := b |}.
+Definition part_of (p : rpart) : part :=
+  match p with RPS s => PStr s | RPI i => PInt (Uint63.to_Z i) end.
+Definition entry_of (r : rentry) : entry :=
+  let '(k, v, dt) := r in {| e_key := map part_of k; e_val := xval_of v; e_dt := dt |}.
+Inductive rkv := RKV (k v : limbs) | RKVErr.      (* KeyValueMtEntries *)
+Definition rkv_agree (r : res (Z * Z)) (o : rkv) : bool :=
+  match r, o with
+  | Ok (k, v), RKV a b => Z.eqb k (z_of_limbs a) && Z.eqb v (z_of_limbs b)
+  | Err _, RKVErr => true
+  | _, _ => false
+  end.
+Definition max_levels : nat := 40.
 
 Inductive rwpayload :=
 | RWInt64 (z : snum) | RWBool (b : bool) | RWStr (s : string) | RWTime (u n : snum) | RWBig (z : snum).
